@@ -137,6 +137,7 @@ func checkC09(p *core.Program, r *core.Report) {
 	r.Rule("R1", "shared-write audit: the session-phase entry points (NewSession, Resume, ReadSession, MarshalJSON, Inspect/Extract*, ChangeLanguage, evaluation, modifiers.Apply, asset getters) have no interprocedural write summary through a non-fresh object of a type reachable from SessionAssets/FlowAssets (including appends into re-slices of shared slices); package-level variables are not written outside init")
 	r.Rule("R2", "lock discipline: every access to flowAssets.cache is preceded by mutex.Lock() in the same function with the Unlock deferred (no explicit Unlock can reach the access)")
 	r.Rule("R3", "lazily initialised values are not shared: package-level variables of types with an unsynchronised initialise-on-read method (XObject, XArray) are constructed eagerly")
+	r.Rule("R7", "no library object that keeps state between calls is shared: no package-level variable has a type the library documents as not safe for concurrent use (cases.Caser, rand.Rand, bytes.Buffer, strings.Builder, a transform.Transformer, a json or csv codec, a hash) — sessions on different goroutines would run it at once")
 	r.Rule("R4", "the writer callbacks handed out by EnumerateLocalizables are invoked only on a flow that is a fresh copy")
 	r.Rule("R6", "package-level expression values are never marked: XValue.SetDeprecated (the one mutator of X values) is only called on a value that cannot be a package-level variable — followed backwards through phis, conversions and the returns of the module functions that produced it (a conversion that hands out shared singletons such as XBooleanTrue makes the mark visible to every session)")
 	r.Rule("R5", "JSON decode targets do not alias shared data: no pointer field of a struct handed to a JSON decoder can hold a pointer derived from a package-level variable at the call (encoding/json writes through existing pointers), unless the function stores a fresh value into it first")
@@ -386,7 +387,7 @@ func checkC09(p *core.Program, r *core.Report) {
 			r.Errorf("lazy initialiser %s.%s not found or no longer writes its receiver: R3's premise changed", lt.typ, lt.m)
 		}
 	}
-	nLazy := 0
+	nLazy, nGlobals := 0, 0
 	for _, pk := range p.Pkgs {
 		rel := core.RelPkg(pk.PkgPath)
 		if strings.HasPrefix(rel, "cmd") || strings.HasPrefix(rel, "test") {
@@ -406,6 +407,12 @@ func checkC09(p *core.Program, r *core.Report) {
 				t = pt.Elem()
 			}
 			n, ok := t.(*types.Named)
+			if ok {
+				nGlobals++
+				if why, stateful := c09StatefulLibraryTypes[core.QualName(n)]; stateful {
+					r.Bad("R7", core.RelPkgAny(pk.PkgPath)+"."+g.Name(), p.Pos(g.Pos()), "package-level "+g.Name()+" is a "+core.QualName(n)+", which every session uses at once: "+why)
+				}
+			}
 			if !ok || !lazyTypes[core.QualName(n)] {
 				continue
 			}
@@ -417,6 +424,8 @@ func checkC09(p *core.Program, r *core.Report) {
 			r.Check(eager, "R3", key, p.Pos(g.Pos()), how, "package-level "+core.QualName(n)+" is initialised lazily on first read without synchronisation and is shared by every session: "+how)
 		}
 	}
+	r.Count("package_level_named_values", nGlobals)
+	r.Require("package_level_named_values", nGlobals, 20)
 	r.Count("package_level_lazy_values", nLazy)
 	// the same for members of shared objects: a field of a type reachable from the session assets that can hold an X
 	// value is published to every session, so what is stored in it must be fully built
@@ -1008,4 +1017,27 @@ func c09R6(p *core.Program, r *core.Report) {
 		r.Check(w == "", "R6", key, p.Pos(cs.Pos()), "the marked value is produced for this evaluation", "SetDeprecated is applied to a value that may be the package-level "+w+": the mark is written without synchronisation into a value every session shares, and from then on every session that reads that value logs a deprecation warning")
 	}
 	r.Require("setdeprecated_sites", n, 3)
+}
+
+// c09StatefulLibraryTypes: library types whose documentation says a value must not be used from several goroutines
+// at once (they keep scratch state between or during calls).
+var c09StatefulLibraryTypes = map[string]string{
+	"golang.org/x/text/cases.Caser":           "a Caser may be stateful and should not be shared between goroutines (x/text/cases documentation)",
+	"math/rand.Rand":                          "a rand.Rand is not safe for concurrent use",
+	"math/rand/v2.Rand":                       "a rand.Rand is not safe for concurrent use",
+	"bytes.Buffer":                            "a bytes.Buffer is not safe for concurrent use",
+	"strings.Builder":                         "a strings.Builder is not safe for concurrent use",
+	"strings.Reader":                          "a strings.Reader keeps a read position",
+	"bufio.Reader":                            "a bufio.Reader keeps a buffer and position",
+	"bufio.Writer":                            "a bufio.Writer keeps a buffer",
+	"bufio.Scanner":                           "a bufio.Scanner keeps a buffer and position",
+	"encoding/json.Decoder":                   "a json.Decoder keeps a buffer and position",
+	"encoding/json.Encoder":                   "a json.Encoder writes through shared state",
+	"encoding/csv.Reader":                     "a csv.Reader keeps a buffer and position",
+	"encoding/csv.Writer":                     "a csv.Writer keeps a buffer",
+	"golang.org/x/text/transform.Transformer": "a Transformer keeps state between Transform calls",
+	"golang.org/x/text/unicode/norm.Iter":     "a norm.Iter keeps a position",
+	"golang.org/x/text/collate.Collator":      "a Collator keeps scratch buffers and is not safe for concurrent use",
+	"golang.org/x/text/message.Printer":       "a message.Printer keeps formatting state",
+	"hash.Hash":                               "a hash keeps a running state",
 }
